@@ -225,14 +225,15 @@ func (r *Router) ListActiveServices() ServiceDescriptionMap {
 
 	r.withReadLock(func() error {
 		for name, service := range r.services.All() {
-			if service.active != nil {
+			active, _, _ := service.loadBalancers()
+			if active != nil {
 				host := strings.Join(service.options.Hosts, ",")
 				if host == "" {
 					host = "*"
 				}
 
 				path := strings.Join(service.options.PathPrefixes, ",")
-				target := strings.Join(service.active.Targets().Names(), ",")
+				target := strings.Join(active.Targets().Names(), ",")
 
 				result[name] = ServiceDescription{
 					Host:   host,
